@@ -378,3 +378,28 @@ def run_c17(F, rep, ctx):
             if re.search(r"::(unwrap|expect)$", nm) or "core::panicking::" in nm:
                 n4 += 1
     rep.extra["K4_sites_counted_not_judged"] = n4
+
+
+def vec_op_dead_blocks(F):
+    """blocks of the vec_op handler that are reachable only through an arm selected by an operand text the compiler never writes"""
+    import rules as _rules
+    vo = F.fn("bytecode::instruction::implementations::vec_op")
+    dead = vec_op_named_arms_dead(F) or set()
+    if vo is None or not dead:
+        return set()
+    live_removed = set()
+    for nm in dead:
+        for c2 in vo.calls():
+            if c2.target is None:
+                continue
+            lits = [_rules.literal_of(vo, a) for a in c2.args]
+            if not any(l == nm or (isinstance(l, list) and ("str", nm) in l) for l in lits):
+                continue
+            der = vo.derived([c2.dst["l"]])
+            for bb, t_t, f_t, pol in _rules.bool_switches(vo, der):
+                if pol is not None:
+                    live_removed.add((bb, t_t if pol else f_t))
+    if not live_removed:
+        return set()
+    reach = vo.reachable(0, removed_edges=live_removed)
+    return {b for b in range(len(vo.blocks)) if b not in reach}
